@@ -50,8 +50,8 @@ type C07Unit struct {
 	PrefixCap int           `json:"prefix_cap"`
 	// AbsorbedFaults: number of single ERR faults (at non-read events) that are additionally tried;
 	// runs that still report success are put through the same power-loss exploration (-1 = none, 0 = all).
-	AbsorbedFaults int   `json:"absorbed_faults"`
-	Seed           int64 `json:"seed"`
+	AbsorbedFaults int          `json:"absorbed_faults"`
+	Seed           int64        `json:"seed"`
 	Fault          *simfs.Fault `json:"fault,omitempty"` // set for the absorbed-fault legs
 }
 
